@@ -9,7 +9,10 @@ A path-bearing attribute has a *kind* (which exemptions apply) and its written v
              remote resource loader accepts; for mount sources / secret and config files / bind devices a
              Windows-absolute path (`C:\x`, `C:/x`, `\\server\share\x`)
 * tilde      `~rest` becomes the user's home directory joined with `rest`
-* relative   becomes the base directory joined with it (lexically cleaned)
+* relative   becomes the base directory joined with it (lexically cleaned); when the base is itself relative
+             (first resolution stage of an included / extended file, whose result is resolved again against the
+             project directory) a result that would be re-read as `~…`, a remote context or a Windows-absolute
+             path keeps a leading `./` — it still denotes the same local path
 * the empty string (and `~` without a usable absolute `$HOME`) is outside what the property speaks about.
 -/
 namespace CV.Paths.Spec
@@ -72,11 +75,17 @@ def classify (k : Kind) (remote : Str → Bool) (s : Str) : Shape :=
   else if k = .mount ∧ winAbs s = true then .exempt
   else .relative
 
+/-- would a later stage read this relative result as something else than a local path? -/
+def reread (j : Str) : Bool := (j.head? = some '~') || isRemoteContext j || winAbs j
+
+/-- keep a relative result recognisable as a local path -/
+def localize (j : Str) : Str := if !isAbs j && reread j then '.' :: '/' :: j else j
+
 /-- the value the property prescribes (`none` = the property does not say) -/
 def expected? (k : Kind) (wd : Str) (home : Option Str) (remote : Str → Bool) (s : Str) : Option Str :=
   match classify k remote s with
   | .exempt => some s
-  | .relative => some (join wd s)
+  | .relative => some (localize (join wd s))
   | .tilde =>
     match home with
     | some h => if isAbs h then some (join h (s.drop 1)) else none
